@@ -65,6 +65,34 @@ def render(t, n):
         return S + "var x=0;" + "x=x+1;" * n + " switch (5) { default: x=x+7; case 0: x=x+0 } x"
     if t == "while_continue_labelled":
         return S + "var x=0,i=0; outer: while (i<2) { i=i+1; var j=0; while (j<1) { j=j+1; " + "x=x+1;" * n + " continue outer } } x"
+    if t.startswith("mx_"):
+        _, form, k, where = t.split("_", 3)
+        k = int(k)
+
+        def elem(j):
+            kind = (j + k) % 8
+            i = j % 7          # few distinct constants: the literal's length is the only thing that grows
+            return [str(i), "'s%d'" % i, "[%d]" % i, "{v:%d}" % i, "id(%d)" % i, "function(){return %d}" % i,
+                    "(T?%d:-1)" % i, "[%d,[%d]][1]" % (i, i)][kind]
+        pre = (S + "var T = true; function id(x){ return x } "
+               "function val(e){ if (typeof e==='number') return e; if (typeof e==='string') return +e.slice(1); "
+               "if (typeof e==='function') return e(); if (e && e.length===1) return e[0]; return e.v } "
+               "function count(a, n){ var ok=0; if (a.length!==n) return -a.length; for (var i=0;i<n;i++) if (val(a[i])===i%%7) ok++; return ok } "
+               "function cargs(){ return count(arguments, %d) } function CA(){ this.r = count(arguments, %d) } " % (n, n))
+        els = [elem(i) for i in range(n)]
+        if form == "array":
+            e = "count([" + ",".join(els) + "], %d)" % n
+        elif form == "object":
+            e = "(function(o){ var ks = Object.keys(o); var a = []; for (var i=0;i<ks.length;i++) { if (ks[i] !== 'k'+i) return -1000-i; a.push(o[ks[i]]) } return count(a, %d) })({" % n + \
+                ",".join("k%d:%s" % (i, x) for i, x in enumerate(els)) + "})"
+        elif form == "args":
+            e = "cargs(" + ",".join(els) + ")"
+        elif form == "newargs":
+            e = "new CA(" + ",".join(els) + ").r"
+        else:
+            raise ValueError(form)
+        W = {"program": "%s", "fdecl": "function f(){ return %s } f()", "callback": "[1].map(function(){ return %s })[0]"}[where]
+        return pre + (W % e)
     if t.startswith("w_"):
         _, payload, wrap = t.split("_", 2)
         pre = S + "function g(){ return arguments.length } function G(){ this.n = arguments.length } "
